@@ -751,13 +751,14 @@ def part_dmrg(run, rng, ncases, quick, t_end):
             M = int(rng.integers(1, 7))
             proc = []
             for _s in range(int(rng.integers(2, 5))):
-                pc = float(rng.choice([0, 0.2, 0.5]))
+                pc = float(rng.choice([0, 0.2, 0.5, 1.0]))
                 if rng.random() < 0.3:
                     crit = ["threshold", "both"][int(rng.integers(2))]
                     proc.append([CompressConfig(getattr(CompressCriteria, crit), threshold=float(10.0 ** rng.uniform(-5, -1)), max_bonddim=M), pc])
                 else:
                     proc.append([M, pc])
-            proc.append([M, 0])
+            # the last sweep usually runs without added basis states, but need not (percent > 0 up to the end)
+            proc.append([M, float(rng.choice([0, 0, 0.3, 1.0]))])
             mps.optimize_config.procedure = proc
             mps.optimize_config.method = method
             mps.optimize_config.nroots = nroots
